@@ -1,5 +1,6 @@
 import Tmcg.Driver
 import Tmcg.Model.Args
+import Tmcg.Model.ArgsGroth
 /-
   Line-protocol handlers of area "args": the rotation argument (HooghSchoenmakersSkoricVillegasVRHE,
   with PUBROTZK) and the shuffle argument (GrothVSSHE with GrothSKC / PedersenCommitmentScheme) —
@@ -91,12 +92,50 @@ def hHooghWitness : Handler
     some s!"{r} {showList R}"
   | _ => none
 
+/-- args.groth.prove.<mode> p q g h le [cg] [pi] [R] [e] [E] [coins] [peer] [log] [crs] => verdict [sent] -/
+def hGrothProve (mode : String) : Handler
+  | [p, q, g, h, le, cg, pi, R, e, E, coins, peer, log, crs] => do
+    let p ← pInt p; let q ← pInt q; let g ← pInt g; let h ← pInt h; let le ← pNat le
+    let cg ← pIntList cg; let pi ← pNatList pi; let R ← pIntList R
+    let e ← pCardList e; let E ← pCardList E; let coins ← pIntList coins
+    let peer ← pPeerLines peer; let log ← pOracle log; let crs ← pCrs crs
+    let _ ← mkMode mode crs (fun _ => 0)
+    some (withOracle log fun H => showOut (do
+      let P ← mkGrothPub p q g h cg le
+      match mkMode mode crs H with
+      | none => .error .oob
+      | some m => run (done (grothProve m P pi R e E)) { peer := peer, coins := coins }))
+  | _ => none
+
+/-- args.groth.verify.<mode> p q g h le [cg] [e] [E] [coins] [peer] trunc [log] [crs] => verdict [sent] -/
+def hGrothVerify (mode : String) : Handler
+  | [p, q, g, h, le, cg, e, E, coins, peer, trunc, log, crs] => do
+    let p ← pInt p; let q ← pInt q; let g ← pInt g; let h ← pInt h; let le ← pNat le
+    let cg ← pIntList cg; let e ← pCardList e; let E ← pCardList E; let coins ← pIntList coins
+    let peer ← pPeerLines peer; let trunc ← pNat trunc; let log ← pOracle log; let crs ← pCrs crs
+    let _ ← mkMode mode crs (fun _ => 0)
+    some (withOracle log fun H => showOut (do
+      let P ← mkGrothPub p q g h cg le
+      match mkMode mode crs H with
+      | none => .error .oob
+      | some m => run (grothVerify m P e E) { peer := peer, coins := coins, trunc := trunc = 1 }))
+  | _ => none
+
+/-- args.groth.witness [idx:r,…] => [pi] [R] -/
+def hGrothWitness : Handler
+  | [ss] => do
+    let ss ← pPairList ss
+    let (pi, R) := grothWitness ss
+    some s!"{showList pi} {showList R}"
+  | _ => none
+
 def modes : List String := ["interactive", "publiccoin", "noninteractive"]
 
 def handlers : List (String × Handler) :=
   modes.flatMap (fun m => [
     ("args.vrhe.prove." ++ m, hVrheProve m), ("args.vrhe.verify." ++ m, hVrheVerify m),
-    ("args.rot.prove." ++ m, hRotProve m), ("args.rot.verify." ++ m, hRotVerify m)])
-  ++ [("args.hoogh.witness", hHooghWitness)]
+    ("args.rot.prove." ++ m, hRotProve m), ("args.rot.verify." ++ m, hRotVerify m),
+    ("args.groth.prove." ++ m, hGrothProve m), ("args.groth.verify." ++ m, hGrothVerify m)])
+  ++ [("args.hoogh.witness", hHooghWitness), ("args.groth.witness", hGrothWitness)]
 
 end Tmcg.DriverArgs
